@@ -270,6 +270,9 @@ func countRevStats(sc *RevScenario, obs *RevObs, st *Stats) (fired int) {
 				k = "delta_"
 			}
 			st.Behav[k+"signer_"+s.SignerKind]++
+			if s.SignerKind == "stale_sig" && s.ForeignSig != nil && s.ForeignTBS != s.TBSHash {
+				st.Probes["crl_edited_under_earlier_genuine_signature_value"]++
+			}
 			if s.SignerKind != "issuer" || s.UnknownCrit || s.NextUpdate.IsZero() {
 				fired++
 			}
